@@ -4,7 +4,9 @@
  (ii) code -> spec: a recorded event with one corrupted field must be rejected by TLC, the untouched event accepted;
  (iii) with --tier thorough: every seeded change under seeded/<id>/ must turn the named property's quick check red
        (tools/try_seed_wt.sh: the patch is applied to a scratch worktree, /repo is never touched);
- (iv) with --tier thorough: the equivalent changes of equivalent/patch.diff must leave every quick check silent.
+ (iv) with --tier thorough: the equivalent changes of equivalent/patch.diff must leave every quick check silent;
+ (v)  with --tier thorough: spec/mc/MC_Display - TLC compares Display!RenderVerdict (the judge of C18 / C14, with its shortcuts) with the plain
+      definition of C18 on every value / precision / rendering of a bounded domain.
 """
 from __future__ import annotations
 import os, json, copy, subprocess, sys
@@ -83,5 +85,11 @@ def selftest(tier: str, seed: int) -> int:
         out = subprocess.run([os.path.join(VERIF, 'tools', 'try_equivalent.sh')], capture_output=True, text=True).stdout
         lines = [l for l in out.splitlines() if ' exit=' in l]
         report(f'equivalent changes (equivalent/patch.diff): {sum(1 for l in lines if " exit=0 " in l)} of {len(lines)} checks silent', len(lines) == 20 and all(' exit=0 ' in l for l in lines))
+        # ---- (v) the judge of rendered numbers against the definition it implements (exhaustive on a bounded domain, ~6 min single-threaded)
+        from .tlc import TLCRun
+        run = TLCRun(module='MC_Display.tla', cfg='MC_Display.cfg', workers=4)
+        for _ in run.lines():
+            pass
+        report(f'Display!RenderVerdict agrees with the definition of C18 on the bounded domain of MC_Display ({run.distinct} values of m)', run.ok and run.distinct > 0)
     print('selftest:', 'all bindings detect' if ok else 'FAILED')
     return 0 if ok else 2
